@@ -57,10 +57,35 @@ func genBW(r *vh.Rand) string {
 	if n < 0 {
 		n = 0
 	}
+	if r.Chance(1, 2) && n < bs+4 {
+		n = bs + 4 + r.Intn(3*bs+2)
+	}
 	p := r.Bytes(n)
 	var ops []string
-	for _, s := range segment(r, p) {
-		ops = append(ops, "w "+vh.Hex(s))
+	if r.Chance(1, 2) {
+		// block-aligned position, then single writes of at least one block + 4 bytes
+		q := p
+		if k := r.Intn(3) * bs; k <= len(q) && r.Bool() {
+			if k > 0 {
+				ops = append(ops, "w "+vh.Hex(q[:k]))
+			}
+			q = q[k:]
+		}
+		for len(q) > 0 {
+			m := len(q)
+			if r.Chance(1, 3) && len(q) > 2*bs+4 {
+				m = (1+r.Intn(len(q)/bs))*bs + []int{0, 0, 4, 1 + r.Intn(bs)}[r.Intn(4)]
+				if m > len(q) {
+					m = len(q)
+				}
+			}
+			ops = append(ops, "w "+vh.Hex(q[:m]))
+			q = q[m:]
+		}
+	} else {
+		for _, s := range segment(r, p) {
+			ops = append(ops, "w "+vh.Hex(s))
+		}
 	}
 	ops = append(ops, "c")
 	outLen := n + 4*((n+bs-1)/bs) + 16
@@ -367,6 +392,15 @@ func gen(a vh.Args) {
 	}
 	for i := 0; i < nHdr; i++ {
 		emit(genRFHeader(r))
+	}
+	// real block size, multi-block (monitor only)
+	bsz := int(c14.BlockSize())
+	bg := [][]int{{bsz + 100, bsz + 100}, {2*bsz + bsz/2 + 7, 4 * bsz}, {2*bsz + 4, bsz, bsz + 4}, {3 * bsz, 1000, 4 * bsz}}
+	if a.Tier != "thorough" {
+		bg = bg[:3]
+	}
+	for _, c := range bg {
+		emit(fmt.Sprintf("BG %d %d %s", r.U64()>>1, c[0], intsStr(c[1:])))
 	}
 	// compression chain (monitor only)
 	for _, comp := range []int{0, 1} {
